@@ -43,7 +43,8 @@ class Skip(Exception):
 class State:
     """A rewritten pipeline plus how to talk to it."""
 
-    def __init__(self, p, names, outs, conv="flat", scope=None, nested=False):
+    def __init__(self, p, names, outs, conv="flat", scope=None, nested=False, base=False):
+        self.base = base        # the original pipeline (never mutated in place; products of rewrites are)
         self.nested = nested    # a subset was nested already (convexity of a further subset is not re-analysed)
         self.p = p              # pipeline or list of pipelines (split)
         self.names = names      # original name -> current name
@@ -120,7 +121,7 @@ def apply_rewrite(kind, st, case, rng, scratch):
                for n in chosen}
         if len(set(ren.values())) != len(ren) or set(ren.values()) & set(cur):
             raise Skip
-        q = p.copy()
+        q = p.copy() if st.base else p  # products of earlier rewrites (e.g. an unpickled pipeline) are updated in place
         q.update_renames(ren, update_from="current")
         return State(q, {o: ren.get(c, c) for o, c in st.names.items()}, list(st.outs), st.conv, st.scope, st.nested)
     if kind == "rename-swap":
@@ -132,7 +133,7 @@ def apply_rewrite(kind, st, case, rng, scratch):
             raise Skip
         a, b = rng.choice(pairs)
         ca, cb = st.names[a], st.names[b]
-        q = p.copy()
+        q = p.copy() if st.base else p
         q.update_renames({ca: cb, cb: ca}, update_from="current")
         names = dict(st.names)
         names[a], names[b] = cb, ca
@@ -140,7 +141,7 @@ def apply_rewrite(kind, st, case, rng, scratch):
     if kind in ("scope", "scope-nested"):
         if st.scope is not None:
             raise Skip
-        q = p.copy()
+        q = p.copy() if st.base else p
         q.update_scope("sc", "*", "*")
         present = {n for f in q.functions for n in list(f.parameters) + list(f.output_name if isinstance(f.output_name, tuple) else (f.output_name,))}
         return State(q, {o: (f"sc.{c}" if f"sc.{c}" in present or c not in present else c) for o, c in st.names.items()}, list(st.outs),
@@ -148,7 +149,7 @@ def apply_rewrite(kind, st, case, rng, scratch):
     if kind == "scope-remove":
         if st.scope is None:
             raise Skip
-        q = p.copy()
+        q = p.copy() if st.base else p
         q.update_scope(None, "*", "*")
         return State(q, {o: (c.split(".", 1)[1] if c.startswith("sc.") else c) for o, c in st.names.items()}, list(st.outs), "flat", None, st.nested)
     if kind in ("nest", "nest-all"):
@@ -279,6 +280,74 @@ def check_state(v, case, st, chain, rng, w, orig_state=None):
     return n
 
 
+def overwrite_case(case, p, new):
+    """Description of the pipeline after update_renames({p: new}, overwrite=True): every function keeps only that
+    rename - all its OTHER parameters go back to the function's own names (earlier renames are dropped)."""
+    import copy
+
+    c = copy.deepcopy(case)
+    for f in c["funcs"]:
+        m = {old: (new if old == p else ip) for old, ip in zip(f["params"], f["iparams"])}
+        f["bound"] = {m[k]: x for k, x in f["bound"].items()}
+        f["defaults"] = {m[k]: x for k, x in f["defaults"].items()}
+        f["params"] = [m[k] for k in f["params"]]
+    outs = {o for f in c["funcs"] for o in f["outs"]}
+    c["roots"] = sorted({q for f in c["funcs"] for q in f["params"] if q not in outs})
+    c["defaults"] = {}
+    for f in c["funcs"]:
+        for k, x in f["defaults"].items():
+            if k in c["roots"] and k not in f["bound"]:
+                c["defaults"][k] = x
+    return c
+
+
+def check_overwrite_renames(v, case, rng, w0):
+    """update_renames(..., overwrite=True) on a pipeline whose functions carry earlier renames."""
+    renamed = [f for f in case["funcs"] if f["iparams"] != f["params"]]
+    roots_used = [p for f in case["funcs"] for p in f["params"] if p in case["roots"]]
+    if not renamed or not roots_used or len(case["funcs"]) < 2:
+        return
+    p = rng.choice(sorted(set(roots_used)))
+    new = p + "_W"
+    c2 = overwrite_case(case, p, new)
+    # the reverted names must not collide with outputs / produce inconsistent defaults: keep to the clean situations
+    outs = set(daggen.all_outputs(case))
+    if any(q in outs and q not in f0["params"] for f, f0 in zip(c2["funcs"], case["funcs"]) for q in f["params"]):
+        return
+    vals = {}
+    for f in c2["funcs"]:
+        for k, x in f["defaults"].items():
+            if vals.setdefault(k, x) != x:
+                return
+        if set(f["defaults"]) & set(f["bound"]):
+            return
+    try:
+        with quiet():
+            q = daggen.build_pipeline(case)
+            q.update_renames({p: new}, overwrite=True, update_from="current")
+    except Exception as e:  # noqa: BLE001
+        v.bad(exc_sig(e, "rewrite-raised:rename-overwrite"), f"update_renames({{{p!r}: {new!r}}}, overwrite=True) raised {exc_msg(e)}", **w0)
+        return
+    v.count("rewrite:rename-overwrite")
+    for out in daggen.all_outputs(c2):
+        K = {r: f"v_{r}" for r in daggen.needed_roots(c2, out)}
+        try:
+            ref = daggen.ref_eval(c2, out, K)
+        except daggen.Missing:
+            continue
+        try:
+            with quiet():
+                got = q(out, **K)
+        except Exception as e:  # noqa: BLE001
+            v.bad(exc_sig(e, "call-after:rename-overwrite"), f"pipeline after update_renames(overwrite=True) raised for {out} {K}: {exc_msg(e)}",
+                  renamed=[p, new], **w0)
+            return
+        v.count("values_compared")
+        if got != ref["value"]:
+            v.bad("value-after:rename-overwrite", f"{out}: got {got!r:.200} expected {ref['value']!r:.200}", renamed=[p, new], **w0)
+            return
+
+
 def run_dag(v, desc, scratch, keys):
     for i in range(desc["start"], desc["start"] + desc["n"]):
         case = daggen.case_from_seed(desc["seed"], i, p_ign=0.0)
@@ -290,10 +359,12 @@ def run_dag(v, desc, scratch, keys):
             v.bad(exc_sig(e, "refused-construct"), f"valid DAG refused: {exc_msg(e)}", case=daggen.describe(case))
             continue
         names = {n: n for n in set(case["roots"]) | set(daggen.all_outputs(case))}
-        base = State(p0, names, daggen.all_outputs(case))
+        base = State(p0, names, daggen.all_outputs(case), base=True)
         w0 = dict(case=daggen.describe(case))
         v.hit(daggen.classes(case))
+        check_overwrite_renames(v, case, rng, w0)
         chains = [[k] for k in REWRITES]
+        chains += [["pickle", k] for k in ("rename", "scope", "rename-swap")] + [["pickle", "scope", "scope-remove"]]
         for _ in range(desc["chains"] * 6):
             chains.append([rng.choice(REWRITES) for _ in range(rng.randint(2, 3))])
         for chain in chains:
@@ -467,6 +538,8 @@ def finalize(agg, tier, seed):
     for k in ("copy", "pickle", "rename", "scope", "nest-all", "join"):
         if c.get(f"rewrite_on_tuple_interior:{k}", 0) < 20 or c.get(f"rewrite_on_tuple_leaf:{k}", 0) < 20:
             floors.append(f"rewrite {k} on tuple-output interior/leaf DAGs: {c.get(f'rewrite_on_tuple_interior:{k}', 0)}/{c.get(f'rewrite_on_tuple_leaf:{k}', 0)} (< 20)")
+    if c.get("rewrite:rename-overwrite", 0) < 100:
+        floors.append("update_renames(overwrite=True) applied fewer than 100 times")
     if c.get("add_mapspec_axis_runs", 0) < 10:
         floors.append("fewer than 10 add_mapspec_axis runs")
     if c.get("non_interference_checks", 0) < 200:
